@@ -50,7 +50,7 @@ num_el["mixc"] = st.one_of(st.integers(-4, 6), V.small_floats, V.complexes)
 
 @st.composite
 def operand_case(draw, tier="quick"):
-    fam = draw(st.sampled_from(["num", "num", "num", "str", "strint", "date_date", "date_td", "date_int"]))
+    fam = draw(st.sampled_from(["num", "num", "num", "str", "strint", "date_date", "date_td", "date_int", "exact", "bytes"]))
     big = tier == "thorough" and draw(st.integers(0, 14)) == 0
     n = draw(st.integers(50, 200)) if big else draw(st.one_of(st.integers(0, 8), st.sampled_from([0, 1, 2])))
     if fam == "num":
@@ -60,6 +60,15 @@ def operand_case(draw, tier="quick"):
             eb = eb.filter(lambda x: x != 0) if kb != "bool" else st.just(True)
         if kb in ("int", "float") and draw(st.booleans()):
             eb = st.integers(-3, 6) if kb == "int" else st.sampled_from([0.5, 2.0, -1.0, 3.0])
+    elif fam == "exact":
+        # object-typed columns of exact numbers (Decimal with Decimal / int, Fraction with Fraction / int)
+        ka = draw(st.sampled_from(["decimal", "fraction"]))
+        kb = draw(st.sampled_from([ka, "smallint"]))
+        pool = {"decimal": V.decimals, "fraction": V.fractions, "smallint": st.integers(1, 4)}
+        ea, eb = pool[ka], pool[kb]
+    elif fam == "bytes":
+        ka = kb = "bytes"
+        ea = eb = V.byteses
     elif fam == "str":
         ka = kb = "str"
         ea = eb = V.strs
@@ -107,6 +116,10 @@ def _undefined(e):
 def _ops_for(fam):
     if fam == "num":
         return BIN
+    if fam == "exact":
+        return BIN[:3]
+    if fam == "bytes":
+        return [BIN[0]]
     if fam == "str":
         return [BIN[0]]
     if fam == "strint":
